@@ -211,6 +211,9 @@ pub enum Pay {
     PBIG,
     /// 64 bytes, 64-byte aligned, tagged
     PA64,
+    /// tagged payload whose destructor re-enters the channel (calls `len()` on a live handle),
+    /// like a message that owns a handle of its own channel
+    PH,
 }
 impl Pay {
     pub fn name(self) -> &'static str {
@@ -231,6 +234,7 @@ impl Pay {
             Pay::PB => "PB",
             Pay::PBIG => "PBIG",
             Pay::PA64 => "PA64",
+            Pay::PH => "PH",
         }
     }
 }
